@@ -104,7 +104,38 @@ def check_covariance(seed):
     return None
 
 
-CHECKS = [("generate_next contract", check_generate_next), ("zero-volatility path", check_zero_vol), ("covariance algebra", check_covariance)]
+def check_shock_continues(seed):
+    """C12: shocking a price at time t never alters values before t, and later values continue from the changed level
+    (zero volatility: exactly new level x exp(drift x (s - t)); positive volatility: the same generator draws scaled by the level ratio)"""
+    rng = random.Random(seed)
+    chunk = rng.choice([3, 5, 100])
+    init, drift = rng.choice([100.0, 300.0]), rng.choice([0.0, 0.001, -0.002])
+    start = rng.choice([0, 0, 2])
+    t = start + rng.choice([0, 0, 1, 3, 7])           # includes a shock at the market's very first step
+    scale = rng.choice([0.9, 1.25])
+    horizon = t + rng.randint(1, 9)
+
+    def build(vol):
+        f = Fundamentals(prng=random.Random(seed)); f._generate_chunk_size = chunk
+        f.add_market(0, initial=50.0, drift=0.0, volatility=0.0)
+        f.add_market(1, initial=init, drift=drift, volatility=vol, start_at=start)
+        return f
+    f = build(0.0)
+    before = [f.get_fundamental_price(1, s) for s in range(t + 1)]
+    new_level = before[t] * scale
+    f.prices[1][t] = new_level; f._generated_until = t          # what Market.change_fundamental_price does
+    for s in range(t, horizon + 1):
+        v = f.get_fundamental_price(1, s)
+        want = new_level * math.exp(drift * (s - t))
+        if abs(v - want) > 1e-9 * want:
+            return f"shock x{scale} at t={t} (market starts at {start}): value at time {s} is {v}, expected the changed level continued: {want}"
+    for s in range(t):
+        if f.get_fundamental_price(1, s) != before[s]:
+            return f"shock at t={t}: value at the earlier time {s} changed"
+    return None
+
+
+CHECKS = [("generate_next contract", check_generate_next), ("shock continues from the changed level", check_shock_continues), ("zero-volatility path", check_zero_vol), ("covariance algebra", check_covariance)]
 
 
 def search(seed, tier, obligation, hints):
